@@ -55,7 +55,7 @@ def gen_model(rng, n):
             base = rng.choice(names[:i])
         fields = []
         for j in range(rng.randrange(0, 5)):
-            fname = ("_" if rng.random() < 0.12 else "") + f"f{i}_{j}"
+            fname = ("_" if rng.random() < 0.12 else "") + f"f{i}_{j}" + ("_" if rng.random() < 0.15 else "")
             r = rng.random()
             if r < 0.25:
                 t = ("b", rng.choice(SCALARS))
@@ -226,10 +226,40 @@ def scripted():
     out.append(dict(uid=uid, enum=f"M{uid}E", classes=[dict(name=A, base=None, fields=[("parent", ("opt", ("c", A))), ("e", ("e", f"M{uid}E")), ("when", ("b", "datetime")),
                                                                                           ("tags", ("list", ("b", "str"))), ("_hidden", ("b", "int")), ("kind", ("type", B))]),
                                                        dict(name=B, base=A, fields=[("y", ("opt", ("b", "float")))])]))
+    uid = next(COUNTER)
+    A, B, C = (f"M{uid}c{i}" for i in range(3))
+    E = f"M{uid}E"
+    out.append(dict(uid=uid, enum=E, classes=[dict(name=A, base=None, fields=[("oe", ("opt", ("e", E))), ("id_", ("b", "int")), ("type_", ("opt", ("b", "str")))]),
+                                               dict(name=B, base=A, fields=[("assistant", ("c", A)), ("oe2", ("opt", ("e", E))), ("zeta", ("b", "int")), ("alpha", ("b", "str")), ("mid", ("list", ("b", "int")))]),
+                                               dict(name=C, base=B, fields=[("deputy", ("opt", ("c", B))), ("owners_", ("list", ("c", A))), ("b2", ("b", "float")), ("a2", ("b", "bool"))])]))
     return out
 
 
+def cross_process_determinism(model):
+    """the same model generated in two interpreter processes with different string hashing must give the same text"""
+    import subprocess
+    build(model)
+    modname = f"c06_model_{model['uid']}"
+    names = [c["name"] for c in model["classes"]]
+    code = (f"import sys; sys.path.insert(0, {TMP!r}); import {modname} as m\n"
+            "from krrood.class_diagrams.class_diagram import ClassDiagram\nfrom krrood.ormatic.ormatic import ORMatic\n"
+            f"o = ORMatic(class_dependency_graph=ClassDiagram([getattr(m, n) for n in {names!r}])); o.make_all_tables()\n"
+            f"p = {TMP!r} + '/xp_' + sys.argv[1] + '.py'\nf = open(p, 'w'); o.to_sqlalchemy_file(f); f.close(); print(open(p).read())")
+    texts = []
+    for seed in ("1", "2", "3"):
+        p = subprocess.run([sys.executable, "-c", code, seed], capture_output=True, text=True, env=dict(os.environ, PYTHONHASHSEED=seed))
+        if p.returncode != 0:
+            return None
+        texts.append(p.stdout)
+    return len(set(texts)) == 1
+
+
 N = {"quick": 30, "thorough": 1500}.get(a.tier, 60)
+for m in scripted()[-2:]:
+    ok = cross_process_determinism(m)
+    rep.case((m["uid"], "cross-process"))
+    if ok is False:
+        rep.fail("not-deterministic::across-processes", "the same model generated under PYTHONHASHSEED=1,2,3 gives different text", dict(model=m))
 models = scripted() + [gen_model(rng, rng.randrange(1, 6)) for _ in range(N)]
 for m in models:
     names = [c["name"] for c in m["classes"]]
